@@ -144,4 +144,49 @@ theorem zipAllEqual_iff_eraseList_aux (X : Ctx) (hX : X.Coherent) (pf : Nat → 
     constructor <;> rintro ⟨h1, h2, h3⟩ <;> exact ⟨h2, h1, h3⟩
 end
 
+/-! ### `WF` = the driver's decidable check + coherence of process handles -/
+
+mutual
+/-- Every process handle inside the value carries the function index `pf pid`. -/
+def ProcOK (pf : Nat → Nat) : Val → Prop
+  | .proc pid f => f = pf pid
+  | .tup _ fs => ProcOKList pf fs
+  | .fn _ caps => ProcOKList pf caps
+  | _ => True
+def ProcOKList (pf : Nat → Nat) : ValList → Prop
+  | .nil => True
+  | .cons v vs => ProcOK pf v ∧ ProcOKList pf vs
+end
+
+mutual
+/-- `WF` is the decidable check the driver evaluates (`wfB`) plus coherence of process handles. -/
+theorem WF_iff_wfB (X : Ctx) (pf : Nat → Nat) : ∀ a : Val, WF X pf a ↔ (wfB X a = true ∧ ProcOK pf a)
+  | .int _ => by simp [WF, wfB, ProcOK]
+  | .bin _ => by simp [WF, wfB, ProcOK]
+  | .ref _ => by simp [WF, wfB, ProcOK]
+  | .builtin _ => by simp [WF, wfB, ProcOK]
+  | .proc _ _ => by simp [WF, wfB, ProcOK]
+  | .res _ _ => by simp [WF, wfB, ProcOK]
+  | .fn _ caps => by
+    have := WFList_iff_wfListB X pf caps
+    simp [WF, wfB, ProcOK, this]
+  | .tup id fs => by
+    have := WFList_iff_wfListB X pf fs
+    simp only [WF, wfB, ProcOK, this, Bool.and_eq_true]
+    cases h : X.tuples[id]? with
+    | none => simp
+    | some t => simp [ValList.length]; constructor <;> (intro h; simp_all)
+theorem WFList_iff_wfListB (X : Ctx) (pf : Nat → Nat) :
+    ∀ l : ValList, WFList X pf l ↔ (wfListB X l = true ∧ ProcOKList pf l)
+  | .nil => by simp [WFList, wfListB, ProcOKList]
+  | .cons v vs => by
+    have h1 := WF_iff_wfB X pf v
+    have h2 := WFList_iff_wfListB X pf vs
+    simp only [WFList, wfListB, ProcOKList, h1, h2, Bool.and_eq_true]
+    constructor
+    · rintro ⟨⟨a, b⟩, c, d⟩; exact ⟨⟨a, c⟩, b, d⟩
+    · rintro ⟨⟨a, c⟩, b, d⟩; exact ⟨⟨a, b⟩, c, d⟩
+end
+
+
 end QM.Equal
